@@ -75,6 +75,9 @@ func runSolver(ctx context.Context, s solverCfg, file string, timeout int, strs 
 	if ctx.Err() != nil && ans != "sat" && ans != "unsat" {
 		ans = "cancelled"
 	}
+	if os.Getenv("GOCV_SLOW") != "" && secs > 2.5 {
+		fmt.Fprintf(os.Stderr, "slow %5.1fs %-10s %-9s %s\n", secs, s.name, ans, filepath.Base(file))
+	}
 	return solveResult{s.name, ans, text, secs}
 }
 
@@ -131,12 +134,25 @@ func (sv *Solver) solve(un *Unit, o *Obl) {
 	if len(file) > 200 {
 		file = filepath.Join(sv.workDir, fmt.Sprintf("%s_%x.smt2", sanitize(o.Name)[:120], hashStr(o.Name)))
 	}
+	if o.Cover && !o.OptionalCover {
+		// reachability: the solvers cannot answer `sat` in the presence of quantified hypotheses, so the
+		// quantifier-free part is what is checked (an unsat answer there is a definite vacuity)
+		file2 := strings.TrimSuffix(file, ".smt2") + ".cex.smt2"
+		if err := os.WriteFile(file2, []byte(un.smtForOpt(o, true, true)), 0o644); err == nil {
+			o.SmtFile = file2
+			sv.solveFileS(un, o, file2, sv.timeout, []string{"z3-new", "z3"})
+			if o.Status == "discharged" {
+				o.Output = "sat (quantifier-free part of the hypotheses)"
+			}
+			return
+		}
+	}
 	if o.Cover && o.OptionalCover {
 		// call-site vacuity guards: quantifier-free part only, short timeout (they are many)
 		file2 := strings.TrimSuffix(file, ".smt2") + ".cex.smt2"
 		if err := os.WriteFile(file2, []byte(un.smtForOpt(o, false, true)), 0o644); err == nil {
 			o.SmtFile = file2
-			sv.solveFileT(un, o, file2, 3)
+			sv.solveFileS(un, o, file2, 3, []string{"z3-new"})
 		}
 		return
 	}
@@ -147,7 +163,7 @@ func (sv *Solver) solve(un *Unit, o *Obl) {
 			if err := os.WriteFile(file0, []byte(pruned), 0o644); err == nil {
 				save := sv.timeout
 				o.SmtFile = file0
-				sv.solveFileT(un, o, file0, 4)
+				sv.solveFileS(un, o, file0, 4, []string{"z3-new", "cvc5"})
 				_ = save
 				if o.Status == "discharged" {
 					o.Output = "unsat (hypotheses pruned to the components the goal mentions)"
@@ -169,12 +185,28 @@ func (sv *Solver) solve(un *Unit, o *Obl) {
 func (sv *Solver) solveFile(un *Unit, o *Obl, file string) { sv.solveFileT(un, o, file, sv.timeout) }
 
 func (sv *Solver) solveFileT(un *Unit, o *Obl, file string, timeout int) {
+	sv.solveFileS(un, o, file, timeout, nil)
+}
+
+// solveFileS races the given solver configurations (all when names is nil).
+func (sv *Solver) solveFileS(un *Unit, o *Obl, file string, timeout int, names []string) {
 	ctx, cancel := context.WithCancel(context.Background())
 	defer cancel()
-	results := make(chan solveResult, len(solvers))
+	results := make(chan solveResult, len(solvers)+1)
 	var wg sync.WaitGroup
 	strs := un.usesStrings()
-	for _, s := range solvers {
+	use := solvers
+	if names != nil {
+		use = nil
+		for _, s := range solvers {
+			for _, n := range names {
+				if s.name == n {
+					use = append(use, s)
+				}
+			}
+		}
+	}
+	for _, s := range use {
 		wg.Add(1)
 		go func(s solverCfg) {
 			defer wg.Done()
